@@ -289,6 +289,7 @@ struct XNode {
     std::string name;             // tag (element) or text/comment/unknown contents
     std::vector<std::pair<std::string, std::string> > attrs;
     std::vector<XNode> kids;
+    bool merged = false;          // text made of several adjacent text nodes (see mergeTexts)
 };
 inline bool operator==(const XNode& a, const XNode& b) { return a.type == b.type && a.name == b.name && a.attrs == b.attrs && a.kids == b.kids; }
 inline XNode snapshotNode(SimTK::Xml::Node n);
